@@ -34,11 +34,11 @@ def macro_stream(nontrivial=(), quick=320, thorough=5000, what=""):
         "nontrivial": list(nontrivial),
     }
 
-def sched_stream(nontrivial=(), quick=(6, 4, 120), thorough=(14, 10, 1500), what=""):
+def sched_stream(nontrivial=(), quick=(6, 4, 120), thorough=(14, 8, 400), what=""):
     return {"kind": "sched", "budget": {"quick": quick, "thorough": thorough}, "nontrivial": list(nontrivial),
             "what": what or "L3: 2-3 real threads running short programs (calls that overflow a hot cache, tag/event/name/conditional invalidations, statistics queries) on real generated functions under a deterministic scheduler that switches at every lock acquisition (hook H1): seeded random schedules, then stateless DFS (exhaustive when the space fits the budget); deadlock = all unfinished threads parked at held locks; every operation's real lock trace checked against the Lean skeleton; the real schedule replayed on the data-carrying interleaving model; quiescent dumps; sequential probe history vs the model"}
 
-def hammer_stream(quick=(3, 8, 400), thorough=(30, 12, 3000)):
+def hammer_stream(quick=(3, 8, 400), thorough=(10, 12, 1500)):
     return {"kind": "hammer", "budget": {"quick": quick, "thorough": thorough}, "nontrivial": [],
             "what": "free-running parallel stress: 8-12 real threads call plain generated functions (sync global and async) whose results are already stored, with large values; any body execution or wrong value is a violation for SOME real schedule (the scheduler of the L3 stream serialises threads and cannot contend inside DashMap shards)"}
 
@@ -52,12 +52,12 @@ TECH = "Lean 4 theorem (induction over operation histories / invariants) + per-s
 
 PROPS = {
     "C01": {
-        "lean_modules": ["Cachelito.Props.C01", "Cachelito.Props.C01b"],
+        "lean_modules": ["Cachelito.Props.C01", "Cachelito.Props.C01b", "Cachelito.Props.C01c"],
         "streams": [core_stream(nontrivial=["hit", "re-store"]), macro_stream(nontrivial=["hit"])],
         "monitors": ["C01"],
         "rule": "L1: generated engine histories; non-trivial = a lookup that returned a value or a store that replaced one. L2: generated call histories on real generated functions; non-trivial = a call served from the cache; distinct by (config, pre-state, op) resp. (op, observation)",
         "level_text": "Lean theorems: in every history of every flavour/policy/configuration a lookup returns exactly the value of the latest store under that key (never a value stored under another key, never a replaced one); the store always holds the latest value per key. Tied to the code by per-step full-state comparison (engines) and per-call comparison of returned values, traces and cache dumps (generated functions); monitors: returned value = value of the latest store (L1), = the deterministic body's value for the arguments (L2).",
-        "level_note": MODEL_NOTE + " The wrapper-level corollary uses key injectivity (C02) as a separate theorem.",
+        "level_note": MODEL_NOTE + " C01c combines C01b with C02's key injectivity: for every signature and deterministic body on well-typed ARGUMENTS, a cached call returns the body's value for the same arguments and a served value never comes from other arguments.",
         "technique": TECH, "design_ref": "DESIGN.md §7 C01",
         "assumptions": ["deterministic body", "sequential use (interleavings: C18)"],
     },
@@ -104,7 +104,7 @@ PROPS = {
         "design_ref": "DESIGN.md §7 C19", "assumptions": [],
     },
     "C04": {
-        "lean_modules": ["Cachelito.Props.C04"],
+        "lean_modules": ["Cachelito.Props.C04", "Cachelito.Props.X01"],
         "streams": [core_stream(nontrivial=["eviction", "expiry"], enumerate_=SMALL_SCOPE)],
         "monitors": ["C04"],
         "rule": "generated episodes (config product flavour x policy x limit x max_memory x ttl x fw, key alphabet limit+2) run on the real engines; a step is non-trivial when it evicts or purges an entry; distinct = distinct (config, pre-state, operation)",
